@@ -135,7 +135,7 @@ func (s *Schema) PrintApp(libFile string) string {
 			own.Defs = append(own.Defs, d)
 		}
 	}
-	return "import \"" + libFile + "\"\n" + own.PrintLayout(Layout{Indent: "    "})
+	return "import \"" + libFile + "\"\n" + own.PrintLayout(Layout{Indent: "    ", Comments: true})
 }
 
 // PrintLib prints the imported file with its go_package constant.
@@ -146,7 +146,7 @@ func (s *Schema) PrintLib(goPackage string) string {
 			lib.Defs = append(lib.Defs, d)
 		}
 	}
-	return "const string go_package = \"" + goPackage + "\";\n" + lib.PrintLayout(Layout{Indent: "    "})
+	return "const string go_package = \"" + goPackage + "\";\n" + lib.PrintLayout(Layout{Indent: "    ", Comments: true})
 }
 
 func (s *Schema) index() {
@@ -221,7 +221,7 @@ func writeComment(b *strings.Builder, c string, l Layout, ind string) {
 	}
 }
 
-func (s *Schema) Print() string { return s.PrintLayout(Layout{Indent: "    "}) }
+func (s *Schema) Print() string { return s.PrintLayout(Layout{Indent: "    ", Comments: true}) }
 
 func (s *Schema) PrintLayout(l Layout) string {
 	var b strings.Builder
